@@ -231,6 +231,19 @@ pub fn build_cases(cfg: &Cfg) -> Vec<Case> {
             }
         }
     }
+    // random presentations: small groups with many coincidences
+    for (k, p) in groupcorpus::random_presentations(seed, cfg.tier.pick(600, 6000)).into_iter().enumerate() {
+        if groups::order(&p, 2000).is_some() {
+            let n = p.ngens;
+            cases.push(Case { name: format!("random presentation #{}", k), pres: p.clone(), subgens: vec![], known_order: None });
+            let words = words_upto(n, 2);
+            for _ in 0..2 {
+                let a = words[rng.below(words.len())].clone();
+                let b = words[rng.below(words.len())].clone();
+                cases.push(Case { name: format!("random presentation #{}", k), pres: p.clone(), subgens: if rng.chance(1, 2) { vec![a] } else { vec![a, b] }, known_order: None });
+            }
+        }
+    }
     // fundamental groups of spherical 2D symbols: the library's reduced presentation and the
     // redundant textbook presentation (one generator per chamber facet)
     let mut count = 0;
